@@ -20,7 +20,7 @@ ALLOWED_AXIOMS = []
 RULE = ("case = (input type, array pair incl. empty sides, subset of global metrics, injective handler table); oracle: empty side -> the "
         "handler's EMPTY_PRED/EMPTY_REF/NO_INSTANCES entry, otherwise global_bin_m == Metric.m applied to the binarised INPUT arrays; "
         "metamorphic: same foregrounds with a different division into instances give identical global values; non-trivial = at least "
-        "one global metric requested and (an empty side or >= 2 instances on a side)")
+        "one global metric requested and (an empty side or >= 2 instances on a side); semantic maps with 255/256/257+ isolated components")
 ASSUMPTIONS = [
     "the metric applied to the binarised arrays is taken from the implementation's own Metric.m call (its equality with the definitions is C06/C07)",
     "clDSC global metric only on 2-D/3-D inputs (the implementation asserts ndim in {2,3})",
@@ -28,7 +28,9 @@ ASSUMPTIONS = [
 TRUSTED = ["numpy/scipy/skimage C code (modelled, not verified)"]
 LEVEL_TEXT = ("Theorems in Props/C13.v: for every handler table and every function F of the binarised arrays, the global value is a function of the "
               "binarised arrays only (so any relabelling keeping background is irrelevant) and equals the EMPTY_PRED / EMPTY_REF / NO_INSTANCES entry "
-              "when the prediction / reference / both foregrounds are empty. The argument mapping of the edge-case call (where defect D2 sat) is "
+              "when the prediction / reference / both foregrounds are empty; for the overlap metrics the global Dice / IoU / RVD are proved to be the "
+              "published set formulas of the four foreground counts of the ORIGINAL multi-label arrays (Proofs/C13Formulas.v: independent of instance "
+              "labels, voxel order; Dice and IoU symmetric). The argument mapping of the edge-case call (where defect D2 sat) is "
               "re-translated from the AST each run (GenEq_ResultCalc.geneq_global); correspondence runs all subsets of global metrics x handler "
               "tables x emptiness cases x input types through evaluate().")
 LEVEL_NOTE = "Trusted: Coq kernel, translator, extraction+driver, harness; numpy/scipy/skimage modelled. Metric values themselves are C06/C07."
@@ -109,6 +111,20 @@ def run(ctx):
         pls = ls if it == "matched" else rng.sample([3, 9, 11, 250], 2)
         pred[0:2, 0:2] = pls[0]; pred[3:4, 0:2] = pls[1]          # second prediction is unmatched -> fresh label max(ref)+1
         cases.append((it, rng.choice(subsets), pred, ref))
+    # semantic maps with hundreds of components, the counts sitting at and around the widths of the label dtypes (2^8): the
+    # foreground handed to the global metrics must be the input's foreground however many instances the approximation finds
+    grid = [(i, j) for i in range(0, 32, 2) for j in range(0, 36, 2)]              # 288 isolated voxels
+    for n_big in (255, 256, 257, rng.randint(258, 288)):
+        for big_side in ("ref", "pred"):
+            pos = rng.sample(grid, n_big)
+            a = np.zeros((32, 36), "uint8")
+            for q in pos:
+                a[q] = 1
+            b = a.copy()
+            for q in rng.sample(pos, rng.randint(1, 6)):
+                b[q] = 0
+            pred, ref = (b, a) if big_side == "ref" else (a, b)
+            cases.append(("semantic", ["DSC", "IOU", "RVD"], pred.astype("int16"), ref.astype("int16")))
     model_in, model_meta = [], []
     # all evaluators (custom handler tables and default-constructed handlers) are built BEFORE any of them is used: a handler's
     # prescription must not depend on which other handlers were constructed after it
